@@ -149,6 +149,6 @@ def run_zero(W, cfg):
 
 HARNESSES = {
     'pixel': {'configs': cfg_pixel, 'run': run_pixel, 'small': 1, 'validate_paths': 1},
-    'jitter_smear': {'configs': cfg_js, 'run': run_js, 'small': 1, 'validate_paths': 1, 'config_timeout_s': 200},
+    'jitter_smear': {'configs': cfg_js, 'run': run_js, 'small': 1, 'validate_paths': 1, 'config_timeout_s': 600},
     'zero_image': {'configs': cfg_zero, 'run': run_zero, 'validate_paths': 0},
 }
